@@ -585,7 +585,8 @@ class _ToEquivalent(Contract):
         memo = [u for (k_, u) in it.__dict__.get("memoised_units", []) if k_ is a.unit]
         parsed = [e_ for (s0, e_) in it.__dict__.get("parsed_exprs", []) if s0 is a.unit]
         out.append(("C09: the value is expressed in the requested unit (the Unit memoised for, or parsed from, the "
-                    "unit string)", any(ru is u for u in memo) or any(ru.fields["expr"] is e_ for e_ in parsed)))
+                    "unit string)", any(ru is u or ru.fields["expr"] is u.fields["expr"] for u in memo)
+                    or any(ru.fields["expr"] is e_ for e_ in parsed)))
         return out + unchanged("C09/C18: input of the copying entry point", a.self, old)
 
     def on_raise(self, it, a, old, exc):
@@ -684,3 +685,25 @@ INPLACE_ENTRY = []
 for _e in ("thermal", "mass_energy", "spectral", "number_density", "schwarzschild", "compton", "sound_speed"):
     INPLACE_ENTRY.append(_mk(_ConvertToEquivalent, "ConvertToEquivalent_" + _e, equiv=_e))
 ALL = ALL + INPLACE_ENTRY
+
+
+class _InUnitsEquivalence(_ToEquivalent):
+    """x.in_units(<unit string>, equivalence=<name>, **params) -- also what x.to(...) and
+    x.to_value(...) call: forwards to to_equivalent (executed as part of this contract)"""
+    name = "unyt.array.unyt_array.in_units"
+
+    def configure(self, repo, dom):
+        _ToEquivalent.configure(self, repo, dom)
+        dom.inline.add("unyt.array.unyt_array.to_equivalent")
+
+    def call_args(self, formals):
+        return [formals["self"], formals["unit"]]
+
+    def call_kwargs(self, formals):
+        return dict({"equivalence": formals["equivalence"]}, **{p: formals[p] for p in self._params})
+
+
+SPELLINGS = []
+for _e in ("thermal", "mass_energy", "spectral", "number_density", "schwarzschild", "compton", "sound_speed"):
+    SPELLINGS.append(_mk(_InUnitsEquivalence, "InUnitsEquivalence_" + _e, equiv=_e))
+ALL = ALL + SPELLINGS
